@@ -7,6 +7,12 @@
 //!
 //! EVENT_QUEUE / SHUT_DOWN of the event logger are process-global statics: `ev_start` is accepted once per
 //! process; a restart of the event logger is a restart of this process (done by the Python side).
+//! `ev_stop` is the graceful stop: event_logger::stop() and then (virtual) time passes until the task has ended.
+//!
+//! Fault injection for the rolling logger: the check starts this process in a PRIVATE MOUNT NAMESPACE
+//! (`unshare -m --propagation private`); `log_pin` bind-mounts a log file onto itself, which makes
+//! rename()/unlink() of that name fail with EBUSY while open-for-append and stat keep working, i.e. exactly
+//! "archive_file's fs::rename fails"; `log_unpin` detaches the mount.  Nothing outlives the namespace.
 use crate::key_keeper::key::AuthorizationItem;
 use crate::proxy::authorization_rules::{
     AuthorizationRulesForLogging, ComputedAuthorizationItem, ComputedAuthorizationRules,
@@ -78,8 +84,48 @@ fn message(token: &str, len: usize) -> String {
     m
 }
 
+/// bind-mount `path` onto itself (private mount namespace only) and check that a rename of it now fails
+fn pin(path: &Path) -> Result<String, String> {
+    // never in the mount namespace the check itself runs in (VERIF_PARENT_MNTNS = its /proc/self/ns/mnt): the
+    // mount would stay behind
+    let mine = std::fs::read_link("/proc/self/ns/mnt").map(|p| p.to_string_lossy().to_string());
+    match (mine, std::env::var("VERIF_PARENT_MNTNS")) {
+        (Ok(mine), Ok(parent)) if !parent.is_empty() && mine != parent => {}
+        (mine, parent) => {
+            return Err(format!("log_pin needs a private mount namespace (self {:?}, parent {:?})", mine, parent));
+        }
+    }
+    let c = std::ffi::CString::new(path.as_os_str().as_encoded_bytes()).map_err(|e| e.to_string())?;
+    let rc = unsafe {
+        libc::mount(c.as_ptr(), c.as_ptr(), std::ptr::null(), libc::MS_BIND, std::ptr::null())
+    };
+    if rc != 0 {
+        return Err(format!("mount --bind {0} {0}: {1}", path.display(), std::io::Error::last_os_error()));
+    }
+    // the fault must be effective on this kernel: renaming the mount point has to fail
+    let mut probe = path.as_os_str().to_os_string();
+    probe.push(".pinprobe");
+    match std::fs::rename(path, &probe) {
+        Ok(()) => {
+            _ = std::fs::rename(&probe, path);
+            Err(format!("{} is bind-mounted onto itself but can still be renamed", path.display()))
+        }
+        Err(e) => Ok(e.to_string()),
+    }
+}
+
+fn unpin(path: &Path) -> Result<(), String> {
+    let c = std::ffi::CString::new(path.as_os_str().as_encoded_bytes()).map_err(|e| e.to_string())?;
+    let rc = unsafe { libc::umount2(c.as_ptr(), libc::MNT_DETACH) };
+    if rc != 0 {
+        return Err(format!("umount {}: {}", path.display(), std::io::Error::last_os_error()));
+    }
+    Ok(())
+}
+
 struct State {
     loggers: HashMap<String, (RollingLogger, PathBuf)>,
+    ev_task: Option<tokio::task::JoinHandle<()>>,
     ev_dir: Option<PathBuf>,
     ev_interval: Duration,
     ev_seq: u64,
@@ -138,7 +184,7 @@ async fn handle(st: &mut State, cmd: &Value) -> Value {
             let cap = cmd["cap"].as_u64().unwrap_or(0) as usize;
             st.ev_dir = Some(dir.clone());
             st.ev_interval = interval;
-            tokio::spawn(event_logger::start(dir.clone(), interval, cap, |_| async {}));
+            st.ev_task = Some(tokio::spawn(event_logger::start(dir.clone(), interval, cap, |_| async {})));
             // let the task run up to its first sleep
             tokio::task::yield_now().await;
             json!({"ok": true, "files": listing(&dir)})
@@ -169,6 +215,42 @@ async fn handle(st: &mut State, cmd: &Value) -> Value {
             };
             tokio::time::sleep(st.ev_interval * 5 / 2).await;
             json!({"ok": true, "files": listing(&dir)})
+        }
+        // graceful stop: event_logger::stop(), then virtual time passes until the task has ended (the loop wakes
+        // up, closes the queue, flushes what is queued subject to the cap, and leaves); "finished": it did end
+        "ev_stop" => {
+            let dir = match &st.ev_dir {
+                Some(d) => d.clone(),
+                None => return json!({"error": "ev_stop before ev_start"}),
+            };
+            event_logger::stop();
+            let finished = match st.ev_task.take() {
+                Some(mut h) => match tokio::time::timeout(st.ev_interval * 50, &mut h).await {
+                    Ok(_) => true,
+                    Err(_) => {
+                        st.ev_task = Some(h);
+                        false
+                    }
+                },
+                None => true,
+            };
+            json!({"ok": true, "finished": finished, "files": listing(&dir)})
+        }
+        // the environment's fault: from now on the rename (and removal) of this file fails, appending works
+        "log_pin" => {
+            let path = PathBuf::from(cmd["path"].as_str().unwrap_or(""));
+            match pin(&path) {
+                Ok(why) => json!({"ok": true, "rename_error": why,
+                                  "files": listing(path.parent().unwrap_or(Path::new(".")))}),
+                Err(e) => json!({"error": e}),
+            }
+        }
+        "log_unpin" => {
+            let path = PathBuf::from(cmd["path"].as_str().unwrap_or(""));
+            match unpin(&path) {
+                Ok(()) => json!({"ok": true, "files": listing(path.parent().unwrap_or(Path::new(".")))}),
+                Err(e) => json!({"error": e}),
+            }
         }
         "dump_write" => {
             let dir = PathBuf::from(cmd["dir"].as_str().unwrap_or(""));
@@ -220,6 +302,7 @@ pub fn main() -> i32 {
     rt.block_on(async {
         let mut st = State {
             loggers: HashMap::new(),
+            ev_task: None,
             ev_dir: None,
             ev_interval: Duration::from_millis(10),
             ev_seq: 0,
